@@ -548,7 +548,7 @@ C11 = Prop("C11", "opt", ["NitroVerif.Props.C11"], gen_c11,
            rule="the 30 documented words, case variants, one-edit near misses, every ordered pair of vocabulary words joined by a blank, sampled runs of 2-4 words with "
                 "eight separators, and random strings through parse_env_value and through a full parse; all vectors of length <=3 over 18 occurrence patterns (long, short, repeated letters, "
                 "bundles with other toggles, --no- forms, other arguments in between) x environments. Non-trivial: as C01, every "
-                "word case. " \
+                "word case. 112 declaration histories in which a toggle is declared after the parser has already parsed (probe parses before and after). " \
                 "A sample of the family is repeated on a parser that was move-constructed (PM1) / move-assigned over a configured parser (PM2) after its declaration; each plain parse is repeated through parse(vector<user_input>) on a parser of its own; 600 (thorough: 2400) two-parse histories of family members on one parser object (H, and HM with the parser moved in between), plus 'defaults, then the option in each spelling, then defaults again' on every template.",
            search=SRCH(gen_c11), theorem_hint="NitroVerif.Props.C11.*",
            level_text="Lean 4: count = number of positive occurrences (long spellings + letter multiplicities), --no- only for "
@@ -573,7 +573,7 @@ C14 = Prop("C14", "opt", ["NitroVerif.Props.C14"], gen_c14,
            rule="one parser object, histories of 2-6 parses: all ordered pairs over 17 vectors (successes and every kind of "
                 "failure), all triples over 9 with an environment change in between, seeded random histories over three "
                 "declarations; each step compared with the specification of a fresh parse. Non-trivial: at least 2 parses. " \
-                "A second declaration with defaults of every kind (non-zero toggle defaults, option and multi-option defaults, greedy) with all ordered pairs over 12 vectors; 800 (thorough: 4000) histories repeated with the parser object moved between the parses (HM: alternately move-constructed and move-assigned).",
+                "A second declaration with defaults of every kind (non-zero toggle defaults, option and multi-option defaults, greedy) with all ordered pairs over 12 vectors; a third declaration with every kind bound to an environment variable: all ordered pairs over 35 (environment, command line) steps and 400 (thorough: 3000) longer histories; 800 (thorough: 4000) histories repeated with the parser object moved between the parses (HM: alternately move-constructed and move-assigned).",
            search=SRCH(gen_c14), theorem_hint="NitroVerif.Props.C14.*",
            level_text="Lean 4: the outcome of the n-th parse on one parser object equals the outcome on a fresh parser, for every "
                       "history of earlier parses (prepare() erases all per-option state).",
